@@ -186,12 +186,12 @@ def rule_field_order(ctx):
         if s not in texts:
             near = [x for x in texts if x.startswith("#(#ident:)*")]
             ctx.report(f"order:from:{k}", ctx.where(ex.file, ex.node), f"the per-field initialiser of the `{k}` form is no longer `{s}` (exactly one `From::from` applied to `value.i`, or none for the plain form); found {near}", {})
-    body = A.fn_text(ex)
+    body = A.fn_text_with_helpers(ex)
     ctx.instance("from:validate_type")
     if "let mut from_tys=self.fields.validate_type(ty)?" not in body or "let from_ty=from_tys.next().unwrap_or_else(||unreachable!())" not in body:
         ctx.report("order:from:validate", ctx.where(ex.file, ex.node), "listed types are no longer validated against the field count and consumed one per field in order", {})
     ctx.instance("from:forward-counter")
-    if 'let gen_ident=format_ident!("__FromT{i}")' not in body or "gen_idents.push(gen_ident);i+=1" not in body or "for (ty,ident) in field_tys.iter().zip(&gen_idents)" not in body:
+    if 'let gen_ident=format_ident!("__FromT{i}")' not in body or "gen_idents.push(gen_ident);i+=1" not in body or not ("for (ty,ident) in field_tys.iter().zip(&gen_idents)" in body or "for (ty,ident) in field_tys.iter().zip(gen_idents)" in body):
         ctx.report("order:from:forward", ctx.where(ex.file, ex.node), "forward impl: the fresh parameter `__FromT{i}` is no longer created once per field in order and zipped with the field types", {})
     # Into
     ie = A.get_fn(ctx.files, INTO, "expand")
@@ -226,12 +226,12 @@ def rule_field_order(ctx):
     for part in ("(tuple_body(input_type,&field_vec),field_vec)", "(struct_body(input_type,&field_vec),field_vec)", "let original_types=&get_field_types(&fields)"):
         if part not in ct:
             ctx.report(f"order:ctor:{part[:24]}", ctx.where(ce.file, ce.node), f"Constructor: parameters, their types and the initialisers no longer come from one field list (`{part}`)", {})
-    cts = A.TList(tx(x) for x in T.templates_of(ce))
-    if not cts or "pubconstfnnew(#(#vars:#original_types),*)->#input_type#ty_generics{#body}" not in cts[0]:
+    cts = A.TList(tx(x) for x in T.templates_of(ce, composed=True))
+    if not any("pubconstfnnew(#(#vars:#original_types),*)->#input_type#ty_generics{#body}" in c for c in cts):
         ctx.report("order:ctor:signature", ctx.where(ce.file, ce.node), "Constructor signature is no longer `new(#(#vars: #original_types),*) -> Self`", {})
     tb = A.get_fn(ctx.files, CTOR, "tuple_body")
     sb = A.get_fn(ctx.files, CTOR, "struct_body")
-    if [tx(x) for x in T.templates_of(tb)] != ["#return_type(#(#vars),*)"] or 'let vars=&numbered_vars(fields.len(),"")' not in A.fn_text(tb):
+    if "#return_type(#(#vars),*)" not in [tx(x) for x in T.templates_of(tb, composed=True)] or A.wsearch(A.fn_text(tb), 'numbered_vars(fields.len(),"")') is None:
         ctx.report("order:ctor:tuple", ctx.where(tb.file, tb.node), "tuple constructor body changed", {})
     if [tx(x) for x in T.templates_of(sb)] != ["#return_type{#(#field_names:#vars),*}"] or "let vars=field_names" not in A.fn_text(sb):
         ctx.report("order:ctor:struct", ctx.where(sb.file, sb.node), "struct constructor body changed (`field: field` for each field in order)", {})
